@@ -156,6 +156,10 @@ def unpack_attributes(attributes, namespace, default, restricted_namespace):
                     ns = default
         else:
             ns = default
+        # Two attributes may share a key (``lang`` and ``xml:lang`` on an
+        # element without a namespace), so the namespace is also kept
+        # with the attribute itself.
+        attribute['namespace'] = ns
         namespaced[ns, name] = value
 
     return namespaced
